@@ -801,6 +801,13 @@ pub fn seam_calls_since_arm(pid: u32) -> u64 {
 pub fn clear_faults() {
     g().cfg.faults.clear();
 }
+/// Flip bits in the data part of the calling sim-process's next packet transmission.
+pub fn corrupt_next_tx(off: u64, xor: u8) {
+    let gl = g();
+    let pid = gl.slots[me()].pid;
+    let nth = gl.procs[pid as usize].tx_attempts;
+    gl.cfg.faults.push(Fault::Corrupt { pid, nth, iov: 1, off, xor });
+}
 pub fn tx_attempts_of(pid: u32) -> u64 {
     g().procs[pid as usize].tx_attempts
 }
